@@ -221,6 +221,14 @@ def make_adapter(a):
     raise ValueError(k)
 
 
+def _info_repr(info):
+    """canonical content of an exchanged Info (C05 compares it across listing / linking orders)"""
+    if info is None:
+        return None
+    return [None if info.time is None else us(info.time), type(info.grid).__name__ if info.grid is not None else None,
+            None if info.units is None else str(info.units), sorted((k, str(v)) for k, v in info.meta.items() if k != "units")]
+
+
 def _counts(con):
     return (sum(v is not None for v in con.in_infos.values())
             + sum(v is not None for v in con.out_infos.values())
@@ -236,7 +244,9 @@ def _complete(con):
             and all(con.infos_pushed.values()) and all(con.data_pushed.values()))
 
 
-def run_impl(spec, order):
+def run_impl(spec, order, link_order=None):
+    """`link_order`: optional permutation of the (consumer, input) pairs giving the order in which the links are
+    created (used by C05; default: by consumer, then input index)"""
     comps = spec["comps"]
     nodes = [(TNode if cs.get("time", True) else CNode)(c, cs).with_name(f"N{c}") for c, cs in enumerate(comps)]
     log, monitor, pushes = [], [], {}
@@ -273,12 +283,15 @@ def run_impl(spec, order):
         wrap_connect(n)
         for o in range(len(n.cs["outs"])):
             wrap_push(n, o, n.outputs[f"Out{o}"])
-    for c, cs in enumerate(comps):
-        for i, x in enumerate(cs["ins"]):
-            cur = nodes[x["src"][0]].outputs[f"Out{x['src'][1]}"]
-            for a in reversed(x["chain"]):
-                cur = cur >> make_adapter(a)
-            cur >> nodes[c].inputs[f"In{i}"]
+    pairs = [(c, i) for c, cs in enumerate(comps) for i in range(len(cs["ins"]))]
+    if link_order is not None:
+        pairs = [pairs[k] for k in link_order]
+    for c, i in pairs:
+        x = comps[c]["ins"][i]
+        cur = nodes[x["src"][0]].outputs[f"Out{x['src'][1]}"]
+        for a in reversed(x["chain"]):
+            cur = cur >> make_adapter(a)
+        cur >> nodes[c].inputs[f"In{i}"]
     outcome, err, names, msg = "ok", None, None, None
     try:
         composition.connect(T(spec["start"]) if spec.get("explicit_start", True) else None)
@@ -311,6 +324,9 @@ def run_impl(spec, order):
             "published": [pushes.get((n.idx, o), []) for o in range(len(cs["outs"]))],
             "held": [[us(t) for t, _d in n.outputs[f"Out{o}"].data] for o in range(len(cs["outs"]))],
             "values": vals,
+            "info_repr": [[_info_repr(con.in_infos[f"In{i}"]) for i in range(len(cs["ins"]))],
+                          [_info_repr(con.out_infos[f"Out{o}"]) for o in range(len(cs["outs"]))],
+                          [_info_repr(n.inputs[f"In{i}"].info) for i in range(len(cs["ins"]))]],
         })
     return res
 
